@@ -58,6 +58,18 @@ theorem C01_rolling_meanvar_2d_add_faithful (k : Nat) (s : MV) (rows : List (Row
     ((mv2 k).add s rows).result = (MV.mergeCore true s (MV.ofRows k (rows.map (·.val)))).result :=
   MV.result_congr (mv2_add_faithful k s rows)
 
+/-- the instances above use the non-raising core of `merge`; this is the real `merge` (with its
+shape check, rolling_stats.py:348–353, and numpy broadcasting): on `k`-column data **no history
+raises `ValueError`** and the real evaluation is exactly the instance's -/
+theorem C01_rolling_meanvar_2d_never_raises (k : Nat) (e : Expr (Row k)) :
+    MV.evalReal (fun rows => MV.ofRows k (rows.map (·.val))) e = .ok (e.eval (mv2 k)) :=
+  mv2_evalReal k e
+
+/-- the same for 1-D data -/
+theorem C01_rolling_meanvar_1d_never_raises (e : Expr F) :
+    ∃ s, MV.evalReal MV.ofList e = .ok s :=
+  (MV.evalReal_wf none MV.ofList MVWf.ofList e).imp fun _ h => h.1
+
 /-- the `Mean` class, 1-D -/
 theorem C01_rolling_mean_1d (e : Expr F) :
     mean1.result (e.eval mean1) = mean1.result (mean1.ofBatch e.data) := 
